@@ -443,6 +443,9 @@ func (e *Enc) strOrderAxioms() {
 // eqVals implements Go's == on a type.
 func (e *Enc) eqVals(t types.Type, a, b *Term, fr *Frame, st *State, x *ssa.BinOp) *Term {
 	tb := e.tb
+	if a.sort == "Str" {
+		return e.strEq(a, b)
+	}
 	if _, ok := t.Underlying().(*types.Interface); ok {
 		// comparing interfaces holding incomparable dynamic types panics; comparison with nil is safe
 		if a.op != "nilIface" && b.op != "nilIface" {
@@ -693,7 +696,7 @@ func (e *Enc) next(fr *Frame, x *ssa.Next, st *State) {
 		okT := tb.Lt(n, e.runeCount(s))
 		k := tb.Func("str.runeoff", []string{"Str", "Int"}, "Int", s, n)
 		r := e.runeAt(s, n)
-		e.assume(tb.True(), tb.Imp(okT, tb.And(tb.Le(tb.Int(0), k), tb.Lt(k, tb.StrLen(s)))))
+		e.assume(tb.True(), tb.Imp(okT, tb.And(tb.Le(tb.Int(0), k), tb.Lt(k, tb.StrLen(s)), tb.Eq(tb.Eq(k, tb.Int(0)), tb.Eq(n, tb.Int(0))))))
 		fr.rangeCount[rng] = tb.Add(n, tb.Int(1))
 		fr.vals[x] = Val{T: []*Term{okT, k, r}}
 		if len(e.stack) == 1 {
@@ -717,7 +720,7 @@ func (e *Enc) runeCount(s *Term) *Term {
 	c := tb.Func("str.runecount", []string{"Str"}, "Int", s)
 	if !e.wfDone[c.id] && !c.bound {
 		e.wfDone[c.id] = true
-		e.assume(tb.True(), tb.And(tb.Le(tb.Int(0), c), tb.Le(c, tb.StrLen(s))))
+		e.assume(tb.True(), tb.And(tb.Le(tb.Int(0), c), tb.Le(c, tb.StrLen(s)), tb.Eq(tb.Eq(c, tb.Int(0)), tb.Eq(tb.StrLen(s), tb.Int(0)))))
 	}
 	return c
 }
@@ -759,4 +762,17 @@ func (e *Enc) midAsserts(fr *Frame, x *ssa.Call, st *State) {
 		q := e.oblige("assert", a.cl.label, st, t, x.Pos(), e.inputVals()...)
 		q.Text = a.cl.text
 	}
+}
+
+// strEq: string equality; comparison with the empty literal is a length test.
+func (e *Enc) strEq(a, b *Term) *Term {
+	tb := e.tb
+	empty := tb.StrLit("")
+	if a == empty && b != empty {
+		return tb.Eq(tb.StrLen(b), tb.Int(0))
+	}
+	if b == empty && a != empty {
+		return tb.Eq(tb.StrLen(a), tb.Int(0))
+	}
+	return tb.Eq(a, b)
 }
